@@ -252,4 +252,6 @@ def run(ctx):
 def replay(case):
     acc = Acc()
     check_doc(acc, (case['headers'], case['seq'], case['seed']))
+    if 'from_measure' in case:
+        check_ranges(acc, (case['headers'], case['seq'], case['seed']))
     return acc.viol
